@@ -685,3 +685,46 @@ def r9(cx):
                     if l is not None and l in tainted:
                         cx.violation(body.fn, 'char-count-in-location', 'a count of characters is used in a byte range of the source text',
                                      loc=body.loc(s))
+
+
+ARITH_EXPAND = 'yash_semantics::expansion::initial::arith::expand'
+VAR_EXPAND = ['yash_env::variable::main::Variable::expand', 'yash_env::variable::quirk::expand']
+
+
+@RS.rule('C03.R10', 'K-SIBLING', '$((x)) reads a variable through the same quirk-aware accessor as $x (Variable::expand), not the raw stored value')
+def r10(cx):
+    F = cx.F
+    # reference sibling: parameter expansion
+    ref = [b for k, b in F.bodies.items() if 'expansion::initial::param::resolve' in k and Q.find_calls(b, VAR_EXPAND)]
+    cx.require(ref, 'parameter expansion no longer reads variables through Variable::expand (reference sibling moved?)')
+    body = F.main_body(ARITH_EXPAND)
+    cx.fn(body.fn)
+    ev = Q.find_calls(body, ['yash_arith::eval_with_config', 'yash_arith::eval'])
+    cx.require(len(ev) == 1, 'the call of yash_arith::eval(_with_config) was not found in arith::expand')
+    envty = ev[0][1]['f'].get('rga') or ev[0][1]['f'].get('ga') or ''
+    envty = envty.split(',')[0].strip() if '<' not in envty else envty
+    roots = [k for k in F.by_root if k.endswith(' as yash_arith::env::Env>::get_variable') and k.startswith('<' + envty.split('<')[0])]
+    cx.require(len(roots) == 1, 'get_variable of the arithmetic environment %s not found' % envty)
+    # follow delegation to other Env impls of the same module
+    seen, todo, aware, raw = set(), [roots[0]], False, []
+    while todo:
+        r = todo.pop()
+        if r in seen:
+            continue
+        seen.add(r)
+        for b in F.logical(r):
+            cx.fn(b.fn)
+            if Q.find_calls(b, VAR_EXPAND):
+                aware = True
+            raw += [(b, t) for _, t in Q.find_calls(b, ['yash_env::variable::VariableSet::get_scalar'])]
+            for _, t in b.calls():
+                n = pp.callee(t)
+                if n.endswith(' as yash_arith::env::Env>::get_variable') and n.startswith('<yash_semantics::') and n in F.by_root:
+                    todo.append(n)
+    cx.site('%s evaluates with %s; get_variable (%d impl(s) followed) uses Variable::expand: %s, raw get_scalar reads: %d; $x uses '
+            'Variable::expand in %s' % (body.fn, envty, len(seen), aware, len(raw), ref[0].fn))
+    if not aware:
+        b0 = F.logical(roots[0])[0]
+        cx.violation(roots[0], 'raw-variable-read', 'arithmetic expansion reads the stored value of a variable (VariableSet::get_scalar, which '
+                     'applies no quirk) while $x goes through Variable::expand: for a variable whose value is computed on expansion '
+                     '($LINENO) `$((LINENO))` is 0 and `$(($LINENO))` is the line number - they must agree', loc=b0.loc(raw[0][1]) if raw else b0.loc(b0.d))
